@@ -359,6 +359,10 @@ class ProcessRunner(Runner, ABC):
                 storage=storage
             )
         finally:
+            # Deliver captured output before the result is reported, so
+            # that the main process can collect it with the result.
+            sys.stdout.flush()
+            sys.stderr.flush()
             process_event_queue.put(ProcessEndEvent(
                 task_name=task_name,
             ))
@@ -379,6 +383,8 @@ class ProcessRunner(Runner, ABC):
         self._consume_log_queue()
         _verif.emit('logs')
         done, _ = self.executor.wait(list(self.future_to_task.keys()), timeout_seconds=timeout_seconds)
+        # Handle the log records of the tasks that have just completed.
+        self._consume_log_queue()
         for future in done:
             task = self.future_to_task[future]
             _verif.emit('yield', t=_verif.task_id(task), cancelled=int(future.cancelled))
